@@ -84,6 +84,32 @@ pub struct Scenario {
     /// to the chain service
     #[serde(default)]
     pub header_stage: bool,
+    /// which header check the header stage runs: 0 = the miner RPC `submit_block` (HeaderVerifier on
+    /// the current snapshot), 1 = the peers' headers-first path (a `SendHeaders` message from a
+    /// simulated peer handled by the real `Synchronizer` over a real `SyncShared`), 2 = the
+    /// compact-block relay path (a `CompactBlock` message handled by the real `Relayer` over the
+    /// same `SyncShared`; what the relay does not take goes the headers-first way)
+    #[serde(default, skip_serializing_if = "is_zero_u8")]
+    pub header_path: u8,
+    /// how the simulated peer announces (header_path 1): 0 = one header per message, a header whose
+    /// parent it has not announced yet is held back; 1 = one message with the header preceded by
+    /// its not yet announced ancestors, in order; 2 = either, chosen per delivery; 3 = one header
+    /// per message, as they come (orphan announcements are sent)
+    #[serde(default, skip_serializing_if = "is_zero_u8")]
+    pub peer_style: u8,
+    /// header_path 1: report (instead of counting) a header that stays marked invalid because it
+    /// was once announced before its parent
+    #[serde(default, skip_serializing_if = "std::ops::Not::not")]
+    pub peer_strict_orphan: bool,
+    /// header_path 1: these blocks are mined locally instead (they take the `submit_block` header
+    /// check and go to the chain service without any announcement). Never generated; used by
+    /// hand-written scenarios about the two paths running side by side.
+    #[serde(default, skip_serializing_if = "Vec::is_empty")]
+    pub miner_blocks: Vec<usize>,
+}
+
+fn is_zero_u8(x: &u8) -> bool {
+    *x == 0
 }
 
 pub fn gen_cfg(r: &mut Rng) -> Cfg {
@@ -388,6 +414,10 @@ pub fn generate_c07(seed: u64) -> Scenario {
         verify_cache_cold: false,
         assume_valid_first: 0,
         header_stage: false,
+        header_path: 0,
+        peer_style: 0,
+        peer_strict_orphan: false,
+        miner_blocks: Vec::new(),
     }
 }
 
@@ -436,6 +466,10 @@ pub fn generate(seed: u64, prop: &str) -> Scenario {
     // C03: the whole pipeline "header check, then chain service" in three runs out of five; real
     // proof of work (nonces mined by the model) in half of the runs
     let mut header_stage = false;
+    // C03: in half of the header-stage runs the header check is the peers' (headers-first sync)
+    let mut header_path = 0u8;
+    let mut peer_style = 0u8;
+    let mut peer_ibd_ms = 0u64;
     let mut tree = if prop == "C04" {
         // chain-mode part of C04: transactions that break one rule of their own (capacity, occupied
         // size, NervosDAO maximum withdraw), or whose time lock / proposal is missing, committed by
@@ -470,6 +504,26 @@ pub fn generate(seed: u64, prop: &str) -> Scenario {
                 muts.extend_from_slice(MUTATIONS_HEADER);
             }
         }
+        if header_stage && !pow_only {
+            // its own generator: no draw sequence of any other run moves
+            let mut rp = Rng::new(seed ^ 0xC03_9EE2);
+            if rp.chance(1, 2) {
+                header_path = 1;
+                peer_style = rp.below(4) as u8;
+                // the peers' path is about headers: more of the trees carry a broken header
+                for _ in 0..10 {
+                    muts.extend_from_slice(MUTATIONS_HEADER);
+                }
+                // one run in six: the node's clock is more than a day ahead of every block, so
+                // the whole run happens in "initial block download"
+                if rp.chance(1, 6) {
+                    peer_ibd_ms = 25 * 3_600_000 + rp.range(0, 3_600_000);
+                } else if rp.chance(1, 3) {
+                    // the compact-block relay path (a node in initial block download ignores it)
+                    header_path = 2;
+                }
+            }
+        }
         if pow_only {
             muts = vec!["hdr_pow", "hdr_pow", "uncle_pow_invalid", "target"];
         }
@@ -486,6 +540,7 @@ pub fn generate(seed: u64, prop: &str) -> Scenario {
             }
         }
         let invalid = if pow_only { invalid.max(1) } else if limits { invalid.max(1) } else { invalid };
+        let invalid = if header_path == 1 { invalid + 1 } else { invalid };
         let mut t = gen_tree_with(&mut r, n, rich, invalid, &muts);
         if limits {
             for x in t.iter_mut() {
@@ -719,6 +774,9 @@ pub fn generate(seed: u64, prop: &str) -> Scenario {
             }
         }
     }
+    if peer_ibd_ms > 0 {
+        ops.insert(0, Op::Clock { ms: peer_ibd_ms });
+    }
     if prop == "C10" {
         // freeze passes at arbitrary points, a few clean restarts
         let k = r.urange(3, 12);
@@ -949,5 +1007,9 @@ pub fn generate(seed: u64, prop: &str) -> Scenario {
         verify_cache_cold: false,
         assume_valid_first: if prop == "C14" && r.chance(1, 3) { r.urange(3, 25) } else { 0 },
         header_stage,
+        header_path,
+        peer_style,
+        peer_strict_orphan: false,
+        miner_blocks: Vec::new(),
     }
 }
